@@ -56,8 +56,13 @@ func (c *verifCol) Retain()                            {}
 func (c *verifCol) Release()                           {}
 
 func (b *verifBatch) MarshalJSON() ([]byte, error) { return []byte("null"), nil }
-func (b *verifBatch) Release()                     { b.refs-- }
-func (b *verifBatch) Retain()                      { b.refs++ }
+func (b *verifBatch) Release() {
+	if b.refs <= 0 {
+		verifOverRelease++
+	}
+	b.refs--
+}
+func (b *verifBatch) Retain() { b.refs++ }
 func (b *verifBatch) Schema() *arrow.Schema        { return b.schema }
 func (b *verifBatch) NumRows() int64               { return b.rows }
 func (b *verifBatch) NumCols() int64               { return int64(b.schema.NumFields()) }
@@ -77,8 +82,51 @@ func (b *verifBatch) ColumnName(i int) string      { return b.schema.Field(i).Na
 func (b *verifBatch) SetColumn(i int, col arrow.Array) (arrow.RecordBatch, error) {
 	return nil, errors.New("verifBatch: SetColumn not modelled")
 }
+// Ownership ledger (C41): every batch object made through the constructors below
+// is registered; Release below zero is counted.
+var (
+	verifAllBatches  []*verifBatch
+	verifOverRelease int
+)
+
+func verifRegister(b *verifBatch) *verifBatch {
+	verifAllBatches = append(verifAllBatches, b)
+	return b
+}
+
 func (b *verifBatch) NewSlice(i, j int64) arrow.RecordBatch {
-	return &verifBatch{schema: b.schema, rows: j - i, meta: b.meta, hasMeta: b.hasMeta, tag: b.tag, size: b.size, refs: 1}
+	return verifRegister(&verifBatch{schema: b.schema, rows: j - i, meta: b.meta, hasMeta: b.hasMeta, tag: b.tag, size: b.size, refs: 1})
+}
+
+// verifLedger reports what the ledger shows after a call: batches made during the
+// call (by the framework or handed to it by a handler) still holding a reference,
+// and reader-owned input batches whose count is not back at the reader's own 1.
+func verifLedger() (leaked, inputsUnbalanced int) {
+	isInput := func(b *verifBatch) bool {
+		for _, q := range [][]*verifInStream{verifInQueue, verifMemQueue, {verifHeaderStream, verifFetchedStream}} {
+			for _, st := range q {
+				if st == nil {
+					continue
+				}
+				for _, x := range st.batches {
+					if x == b {
+						return true
+					}
+				}
+			}
+		}
+		return false
+	}
+	for _, b := range verifAllBatches {
+		if isInput(b) {
+			if b.refs != 1 {
+				inputsUnbalanced++
+			}
+		} else if b.refs != 0 {
+			leaked++
+		}
+	}
+	return
 }
 func (b *verifBatch) Metadata() arrow.Metadata { return b.meta }
 
@@ -94,7 +142,7 @@ func verifNewBatch(schema *arrow.Schema, rows int64, tag int, keys, vals []strin
 		b.meta = arrow.NewMetadata(keys, vals)
 		b.hasMeta = true
 	}
-	return b
+	return verifRegister(b)
 }
 
 func verifSrcOf(cols []arrow.Array) *verifBatch {
@@ -113,7 +161,7 @@ func verifNewRecordBatchWithMetadata(schema *arrow.Schema, cols []arrow.Array, n
 	if src := verifSrcOf(cols); src != nil {
 		nb.tag, nb.size = src.tag, src.size
 	}
-	return nb
+	return verifRegister(nb)
 }
 
 func verifNewRecordBatch(schema *arrow.Schema, cols []arrow.Array, nrows int64) arrow.RecordBatch {
@@ -121,11 +169,11 @@ func verifNewRecordBatch(schema *arrow.Schema, cols []arrow.Array, nrows int64) 
 	if src := verifSrcOf(cols); src != nil {
 		nb.tag, nb.size = src.tag, src.size
 	}
-	return nb
+	return verifRegister(nb)
 }
 
 func verifEmptyBatch(schema *arrow.Schema) arrow.RecordBatch {
-	return &verifBatch{schema: schema, rows: 0, refs: 1}
+	return verifRegister(&verifBatch{schema: schema, rows: 0, refs: 1})
 }
 
 func verifBatchBufferSize(batch arrow.RecordBatch) int64 {
@@ -166,6 +214,7 @@ func verifResetIPC() {
 	verifOutStreams, verifWriters, verifWriterSt = nil, nil, nil
 	verifOptSchema = nil
 	verifMemQueue, verifMemNext = nil, 0
+	verifAllBatches, verifOverRelease = nil, 0
 }
 
 func verifStreamOf(r *ipc.Reader) *verifInStream {
